@@ -100,6 +100,9 @@ func directedMixes() [][]string {
 		{"@slot", "Parse.fast", "Notify", "purge", "purge", "Close"},
 		{"@slot", "Parse.fast", "Parse.slow", "Notify", "purge", "purge", "Capture", "Release"},
 		{"@full", "Parse.fast", "Notify", "purge", "Close"},
+		// concurrent encoders with their own buffers vs the sequential results; pooled senders after error paths
+		{"@encpar"},
+		{"@encpar", "Parse.fast", "purge"},
 		{"Close", "Close", "Notify", "purge", "Parse.fast"},
 		{"arp.Close", "arp.Close", "arp.ProcessPacket", "arp.StartHunt", "arp.IsHunting"},
 		{"icmp6.Close", "icmp6.Close", "icmp6.ProcessPacket.RA", "icmp6.StartHunt", "icmp6.StopHunt"},
@@ -347,10 +350,18 @@ func childMain() {
 			mode = o
 		}
 	}
+	if mode == "@encpar" {
+		encMain(c, rng)
+	}
 	var stuck int32
 	switch mode {
 	case "":
 		// consumer of the notification channel ("the caller is reading")
+		go func() {
+			for range c.s.C {
+			}
+		}()
+	case "@encpar":
 		go func() {
 			for range c.s.C {
 			}
